@@ -190,7 +190,7 @@ pub enum Replay
     State{ kind : String, bytes : Vec<u8>, expect_reject : bool, read_chunk : u32 },
     StateRoundTrip{ kind : String, seed : u64 },
     /* C19 */
-    Server{ case : Case, requests : Vec<(String, String)> },
+    Server{ case : Case, requests : Vec<(String, String, String)> },
     /* C17 */
     C17{ case : Case },
     /* C10 conformance probe: fixed script, nothing to parametrise */
